@@ -181,7 +181,7 @@ func VerifLMalformed() {
 	}
 	bullets := []string{"-", "*", "+"}
 	bullet := bullets[verifChoose("bullet", 0, 2)]
-	switch verifChoose("class", 0, 4) {
+	switch verifChoose("class", 0, 5) {
 	case 0: // no bullet after the indentation: the first byte after it is neither a bullet nor blank (nor '#' at column 0)
 		rest := lpName(lpLen())
 		verifAssume(rest[0] != '-' && rest[0] != '*' && rest[0] != '+' && !lpIsWS(rest[0]))
@@ -213,6 +213,15 @@ func VerifLMalformed() {
 		}
 		_, err := p.Parse(ind + bullet + " " + lpName(lpLen()))
 		verifAssert(err == ErrIncorrectFormat, "LM.mixed")
+	case 5: // the other indentation character in a later row, once the document's character is known (any root block)
+		verifAssume(unitKnown)
+		other := "\t"
+		if nt.c == "\t" {
+			other = " "
+		}
+		w := int(verifChoose("otherWidth", 1, 4))
+		_, err := p.Parse(rep(other, w) + bullet + " " + lpName(lpLen()))
+		verifAssert(err == ErrIncorrectFormat, "LM.otherchar")
 	case 4: // blank and whitespace-only rows
 		_, err := p.Parse(rep(nt.c, int(verifChoose("wsLen", 0, 3))))
 		verifAssert(err == ErrBlankLine, "LM.blank")
